@@ -214,3 +214,49 @@ package sonic
 //@   ensures [released] old(s.fd) >= 0 ==> FDOPEN[old(s.fd)] == 0 && s.fd < 0
 //@   ensures [already-closed] old(s.fd) < 0 ==> s.fd == old(s.fd) && (forall k :: FDOPEN[k] == old(FDOPEN[k]))
 //@   ensures [nothing-else] forall k :: k != old(s.fd) ==> FDOPEN[k] == old(FDOPEN[k])
+
+// --- constructors (C13): failure leaves the descriptor table as it was ---
+//@ func ext:fmt.Errorf
+//@   trusted
+//@   ensures result != nil
+//@   modifies nothing
+
+//@ func NewPacketConn
+//@   prop C13
+//@   requires len(network) >= 3
+//@   ensures [no-leak] result1 != nil ==> (forall k :: FDOPEN[k] == old(FDOPEN[k]))
+
+//@ func Listen
+//@   prop C13
+//@   requires len(network) >= 3
+//@   ensures [no-leak] result1 != nil ==> (forall k :: FDOPEN[k] == old(FDOPEN[k]))
+
+//@ func DialTimeout
+//@   prop C13
+//@   requires len(network) >= 3
+//@   ensures [no-leak] result1 != nil ==> (forall k :: FDOPEN[k] == old(FDOPEN[k]))
+
+// accept(2) hands out a new descriptor on success only
+//@ func ext:syscall.Accept
+//@   trusted
+//@   ensures err == nil ==> nfd >= 0 && old(FDOPEN[nfd]) == 0 && (forall k :: FDOPEN[k] == ((k == nfd) ? 1 : old(FDOPEN[k])))
+//@   ensures err != nil ==> nfd < 0 && (forall k :: FDOPEN[k] == old(FDOPEN[k]))
+//@   modifies FDOPEN
+//@ func ext:os.NewSyscallError
+//@   trusted
+//@   modifies nothing
+
+//@ func (*listener).accept
+//@   prop C13
+//@   requires lInv(l)
+//@   // a failed accept leaves the descriptors that really exist (numbers >= 0) as they were
+//@   ensures [no-leak] result1 != nil ==> (forall k :: k >= 0 ==> FDOPEN[k] == old(FDOPEN[k]))
+//@   // accept builds a new connection object; nothing that existed before is written
+//@   modifies FDOPEN
+
+//@ func NewSocket
+//@   prop C13
+//@   ensures [no-leak] result1 != nil ==> (forall k :: FDOPEN[k] == old(FDOPEN[k]))
+//@   ensures [opened] result1 == nil ==> result0 != nil && result0.fd >= 0 &&
+//@           (forall k :: FDOPEN[k] == ((k == result0.fd) ? 1 : old(FDOPEN[k])))
+//@   ensures [fresh] result1 == nil ==> (forall k :: k == result0.fd ==> old(FDOPEN[k]) == 0)
